@@ -5,6 +5,14 @@ import json, os, subprocess
 ROOT = os.path.dirname(os.path.dirname(os.path.abspath(__file__)))
 
 CLAIMED = {
+  "C12": dict(engine="E4 histsim", level="exploration", design="§4 C12, §1.2",
+      technique="deterministic single-actor history simulation: seeded evolve/sign/verify/restart histories over all 14 KES types vs. period counter + independently derived public key",
+      text="Every run walks one KES key from period 0 to exhaustion with seeded interleaving of sign+verify (must verify at the current period only: all other periods for depth <= 4, sampled ones for 5..7), byte round-trips, persist-and-reload restarts and period/public-key checks; update must fail exactly at the last period.",
+      note="No environment nondeterminism exists for this property; the simulator contributes history generation, restart injection, reference model, minimisation and exact replay only. Shares blake2b/Ed25519 with the oracle."),
+  "C13": dict(engine="E4 histsim", level="exploration", design="§4 C13, §1.2",
+      technique="deterministic single-actor history simulation with key-buffer disclosure injected after every step; forbidden-set oracle from an independent seed-tree derivation",
+      text="The same histories; after every step the whole key buffer is read and searched, at every byte offset, for the Ed25519 signing key of any past period and for the seed of any tree node whose subtree starts in the past (independent blake2b(1|s)/blake2b(2|s) derivation).",
+      note="Inspects only the buffer the API owns (no stack copies, no caller seed buffer). Single actor."),
   "C09": dict(engine="E1 netsim1 + E2 p2psim", level="exploration", design="§4 C09",
       technique="deterministic simulation of a corrupting transport / disk (bit flip, overwrite, splice, truncate, CBOR length corruption, garbage, nesting, foreign-protocol payload; in flight and at rest) in front of the real demuxers and decoders; crash-supervised child",
       text="A conformant simulated peer streams generated legal messages of every protocol of both stacks, and every block / transaction / header artefact of test_data framed as protocol replies, through a seeded corrupting transport; the real demuxer, typed message decoders, AnyMessage::from_payload (whose output is fed into both behaviours), MultiEraBlock/Tx/Header/Output::decode and Address::from_bytes consume whatever arrives. Oracle: no panic in a decode entry point, no process abort, termination by EOF.",
@@ -63,7 +71,7 @@ CLAIMED = {
       note="Trusts blake2b/ed25519 of pallas-crypto (used on both sides) and the hand-written strict CBOR walker. Single actor; no scheduler/clock/transport."),
 }
 
-PENDING = {k: 'claimed in DESIGN.md; check under construction (not yet registered)' for k in 'C12 C13 C39 C40'.split()}  # id -> reason while a claimed check is still being built
+PENDING = {k: 'claimed in DESIGN.md; check under construction (not yet registered)' for k in 'C39 C40'.split()}  # id -> reason while a claimed check is still being built
 
 NA = {
  "C01": "Flat encoder/decoder are in-memory functions of a value sequence; bit alignment depends on the values written, not on any schedule, stream, clock or fault.",
